@@ -61,7 +61,9 @@ type State struct {
 	fr         *Frame
 	cells      map[int]*Cell
 	heap       map[string]Term
-	tainted    map[string]bool // heap component was havocked (entry-bound facts no longer apply)
+	tainted    map[string]bool            // heap component was havocked (entry-bound facts no longer apply)
+	loopEvents map[string]bool            // events some loop cut on this path may produce any number of times
+	loopEvBy   map[string]map[string]bool // the same per loop marker ("loop*k")
 	pc         []string
 	ghost      map[string]Val
 	trace      []Event
@@ -123,7 +125,11 @@ type dryInfo struct {
 	rows  map[string][]Term
 	whole map[string]bool
 	sorts map[string]string
-	start int
+	// ghosts assigned by hooks that fired during the dry run (whatever key matched, also inside inlined helpers)
+	ghosts map[string]bool
+	// event names produced during the dry run (whoever produced them: the body or an inlined helper)
+	events map[string]bool
+	start  int
 }
 
 // Ctx is the per-function verification context.
@@ -236,6 +242,14 @@ func (st *State) clone() *State {
 	n.tainted = make(map[string]bool, len(st.tainted))
 	for k, v := range st.tainted {
 		n.tainted[k] = v
+	}
+	n.loopEvents = make(map[string]bool, len(st.loopEvents))
+	for k, v := range st.loopEvents {
+		n.loopEvents[k] = v
+	}
+	n.loopEvBy = make(map[string]map[string]bool, len(st.loopEvBy))
+	for k, v := range st.loopEvBy {
+		n.loopEvBy[k] = v
 	}
 	n.pc = st.pc[:len(st.pc):len(st.pc)]
 	n.trace = st.trace[:len(st.trace):len(st.trace)]
